@@ -146,6 +146,10 @@ func ToValidatePeriod(now time.Time, v string, isRelative bool) (string, error) 
 		}
 		return timeToSMPPTimeFormatRelative(d), nil
 	}
+	if d >= 36500*24*time.Hour {
+		// the absolute format carries a two-digit year: a century or more ahead would denote another instant
+		return "", fmt.Errorf("absolute validity period must be shorter than 36500 days")
+	}
 	return timeToSMPPTimeFormatAbsolute(now, now.Add(d)), nil
 }
 
